@@ -692,8 +692,31 @@ def x5_x7(ctx):
             if len(ck) == 1 and len(pr) == 1 and ck[0] is not pr[0]:
                 tests.append((n, ck[0], pr[0]))
     arms_by_line = lambda l: arm_of_line(pp, l)
+    # the pair may live in a private predicate `fn is_known(defines, id) -> bool { defines.contains_key(id) || <pred>(id) }`: a call of it
+    # is one definedness test about ONE name (its body is judged once)
+    helper_tests = []
+    for hname_, h_ in pp.fns.items():
+        hb_ = h_['body']['stmts'] if h_.get('body') else []
+        if h_ is pp.loop_fn or len(hb_) != 1 or hb_[0]['k'] != 'expr' or hb_[0].get('semi') or h_['sig'].get('rets') != 'bool':
+            continue
+        e_ = hb_[0]['e']
+        if e_.get('k') == 'binary' and e_['op'] in ('||', '&&') and 'contains_key' in sq(e_) and pred and pred + '(' in sq(e_):
+            args_ = [sq(sx.strip_ref(x_['args'][0])) for x_ in sx.walk(e_) if (x_.get('k') == 'mcall' and x_['m'] == 'contains_key') or sx.is_call(x_, pred)]
+            if len(set(args_)) != 1 or e_['op'] != '||':
+                r5.fail('%s:%s:different-names' % (CRATE, hname_), pp.where(h_['l']), '%s: the predicate asks the table and the predefined set about different names, or combines them wrongly (%s)' % (hname_, sq(e_)[:60]))
+            for n_ in sx.walk(pp.loop_fn['body']):
+                if sx.is_call(n_, hname_):
+                    helper_tests.append(n_)
     per_arm = {}
-    for n, ck, pr in tests:
+    events_ = sorted([(n.get('l') or 0, 'pair', (n, ck, pr)) for n, ck, pr in tests] + [(n_.get('l') or 0, 'helper', n_) for n_ in helper_tests], key=lambda t_: t_[0])
+    for _l, kind_, item_ in events_:
+        if kind_ == 'helper':
+            a = arms_by_line(item_.get('l'))
+            akey = a.key if a else '-'
+            per_arm[akey] = per_arm.get(akey, 0) + 1
+            r5.inst('%s:%s:%d' % (CRATE, akey, per_arm[akey]), {'arm': akey, 'test': sx.render(item_)[:100]})
+            continue
+        n, ck, pr = item_
         a = arms_by_line(n.get('l'))
         akey = a.key if a else '-'
         per_arm[akey] = per_arm.get(akey, 0) + 1
@@ -725,7 +748,7 @@ def x5_x7(ctx):
     if len(ck_all) != paired_ck:
         r5.fail('%s:unpaired-contains_key' % CRATE, pp.where(pp.loop_fn['l']),
                 '%d of %d contains_key tests are not combined with the predefined-macro predicate' % (len(ck_all) - paired_ck, len(ck_all)))
-    r5.floor('definedness_tests', len(tests), 4)
+    r5.floor('definedness_tests', len(tests) + len(helper_tests), 4)
 
     # ---- X6
     cond = [a for a in pp.arms if a.event == 'Enter' and a.kind in ('IfdefDirective', 'IfndefDirective')]
